@@ -117,6 +117,7 @@ type Interp struct {
 	timeTexts []*timeEntry
 	numSeq    int
 	lastDec   []*Term
+	hangBound int // >0: a loop iterating more often (outside harness files) is a violation
 	cross     *Solver // secondary solver for cross-checking unsat verdicts
 	rng       map[int]urange // unsigned bounds of variables implied by the path condition
 	maxValues int
@@ -529,6 +530,16 @@ func (in *Interp) noteLoop(fr *frame, b *ssa.BasicBlock) {
 		fr.loops = map[*ssa.BasicBlock]int{}
 	}
 	fr.loops[b]++
+	if in.hangBound > 0 && fr.loops[b] > in.hangBound && fr.loops[b] <= in.unwind {
+		// termination claim of the job: no loop outside the harness iterates more
+		// than hangBound times on inputs of the job's (small) size
+		pos := in.fset.Position(b.Instrs[0].Pos())
+		if !strings.Contains(pos.Filename, "zz_verif_") {
+			_, m := in.checkSat(nil, true)
+			in.violation("hang", "every loop ends", fmt.Sprintf("loop at %s in %s iterated more than %d times on an input of this size", pos, fr.fn.String(), in.hangBound), m, nil)
+			panic(&pathEnd{reason: "violation"})
+		}
+	}
 	if fr.loops[b] > in.unwind {
 		detail := fmt.Sprintf("loop at %s iterated more than %d times on one path", in.fset.Position(b.Instrs[0].Pos()), in.unwind)
 		if os.Getenv("GOSYM_DEBUG_UNWIND") != "" {
